@@ -309,3 +309,113 @@ def run_a9(chk, A9, repo, modname='pharmpy.model.external.nonmem.advan', minimum
                                           'is scaled by S2')
     if n < minimum:
         raise AnalysisError(f'{A9}: only {n} guarded symbol uses found in {modname}')
+
+
+def _bool_eval(e, env):
+    """evaluate a sympy boolean constructor expression (And/Or/Not calls, star-unpacked comprehensions over a list bound in
+    env) for concrete truth values"""
+    if isinstance(e, ast.Name):
+        if e.id in env:
+            return env[e.id]
+        raise AnalysisError(f'A8: unbound name {e.id} in the branch condition')
+    if isinstance(e, ast.Constant):
+        return bool(e.value)
+    if isinstance(e, ast.Call):
+        fn = (dotted(e.func) or '').split('.')[-1]
+        args = []
+        for a in e.args:
+            if isinstance(a, ast.Starred):
+                v = a.value
+                if isinstance(v, (ast.GeneratorExp, ast.ListComp)):
+                    gen = v.generators[0]
+                    seq = _bool_eval(gen.iter, env)
+                    for item in seq:
+                        env2 = dict(env)
+                        env2[gen.target.id] = item
+                        if all(_bool_eval(c, env2) for c in gen.ifs):
+                            args.append(_bool_eval(v.elt, env2))
+                else:
+                    args.extend(_bool_eval(v, env))
+            else:
+                args.append(_bool_eval(a, env))
+        if fn == 'And':
+            return all(args)
+        if fn == 'Or':
+            return any(args)
+        if fn == 'Not' and len(args) == 1:
+            return not args[0]
+    raise AnalysisError(f'A8: unsupported boolean construction {unparse(e)[:60]}')
+
+
+def run_a8_truth(chk, A8, repo):
+    """the condition given to a branch value = own condition AND NOT each earlier branch that skipped the symbol"""
+    import itertools
+    m = repo.module(f'{NMREC}.code_record')
+    f = m.functions.get('_parse_tree')
+    combos = [n for n in ast.walk(f.node) if isinstance(n, ast.Assign) and isinstance(n.targets[0], ast.Name)
+              and isinstance(n.value, ast.Call) and (dotted(n.value.func) or '').endswith('And')
+              and any(isinstance(a, ast.Starred) or (isinstance(a, ast.Call) and (dotted(a.func) or '').endswith('Not'))
+                      for a in n.value.args)
+              and n.targets[0].id in {x.id for x in ast.walk(n.value) if isinstance(x, ast.Name)}]
+    if not combos:
+        raise AnalysisError('A8: combination of the branch condition with the skipped conditions not found')
+    for n in combos:
+        own = n.targets[0].id
+        lists = {x.id for x in ast.walk(n.value) if isinstance(x, ast.Name)} - {own, 'sympy', 'cond'}
+        lists = {x for x in lists if x not in ('And', 'Not', 'Or')}
+        if len(lists) != 1:
+            raise AnalysisError(f'A8: cannot identify the list of skipped conditions in {unparse(n)[:80]} ({lists})')
+        lst = lists.pop()
+        bad = None
+        for L, c1, c2 in itertools.product([False, True], repeat=3):
+            got = _bool_eval(n.value, {own: L, lst: [c1, c2]})
+            want = L and (not c1) and (not c2)
+            if got != want:
+                bad = (L, c1, c2, got)
+        chk.instance(A8, f'`{unparse(n)[:90]}` == own AND NOT c1 AND NOT c2 for all 8 assignments: {bad is None}')
+        if bad is not None:
+            chk.violation(A8, m.rel, f.qualname, unparse(n)[:120],
+                          f'with two skipped branches the condition is wrong (own={bad[0]}, c1={bad[1]}, c2={bad[2]} gives '
+                          f'{bad[3]}): the later branch overrides although an earlier branch was taken', line=n.lineno,
+                          witness='X defined before; IF (A) ... ELSE IF (B) ... ELSE X = 3 with X untouched by the first two '
+                                  'branches, on a record with A true and B false: NM-TRAN keeps X, pharmpy assigns 3')
+
+
+def run_a10(chk, A10, repo):
+    """lists that are zipped by a helper come from the same accumulation level"""
+    pm = repo.module('pharmpy.model.external.nonmem.parsing')
+    n = 0
+    for f in pm.functions.values():
+        accs = {a.targets[0].id for a in walk_no_nested(f.node) if isinstance(a, ast.Assign) and len(a.targets) == 1
+                and isinstance(a.targets[0], ast.Name) and isinstance(a.value, ast.List) and not a.value.elts}
+        for L in [x for x in walk_no_nested(f.node) if isinstance(x, ast.For) and isinstance(x.target, ast.Name)]:
+            ext = {c.func.value.id for c in ast.walk(L) if isinstance(c, ast.Call) and isinstance(c.func, ast.Attribute)
+                   and c.func.attr == 'extend' and isinstance(c.func.value, ast.Name)} & accs
+            if len(ext) < 2:
+                continue
+            rec = L.target.id
+            for c in ast.walk(f.node):
+                if not (isinstance(c, ast.Call) and isinstance(c.func, ast.Name) and len(c.args) >= 2):
+                    continue
+                kinds = []
+                for a in c.args:
+                    if isinstance(a, ast.Name) and a.id in ext:
+                        kinds.append('accumulated')
+                    elif isinstance(a, ast.Attribute) and isinstance(a.value, ast.Name) and a.value.id == rec:
+                        kinds.append('record')
+                    else:
+                        kinds.append(None)
+                if 'accumulated' not in kinds:
+                    continue
+                n += 1
+                ok = 'record' not in kinds
+                chk.instance(A10, f'{f.name}: {unparse(c)[:70]} argument levels {kinds}: consistent {ok}')
+                if not ok:
+                    chk.violation(A10, pm.rel, f.name, unparse(c)[:100],
+                                  'lists accumulated over all records are combined element by element with a list of the '
+                                  'current record only: from the second record on the elements do not correspond',
+                                  line=c.lineno,
+                                  witness='$THETA (0,3) (0.75,0.75,0.75) followed by $THETA (0,20) (0,1,2): THETA(4) is read as '
+                                          'fixed')
+    if n == 0:
+        raise AnalysisError('A10: no helper call over accumulated record lists found in parsing.py')
